@@ -16,8 +16,12 @@ REG = {'fns': {}, 'classes': [], 'specfns': {}, 'lemmas': [], 'props': {}}
 
 
 class LoopSpec(object):
-    def __init__(self, invariants=(), index=None, decreases=None, unroll=False, ghost=None, modifies=None):
-        self.invariants = [(n, e) for n, e in invariants]
+    def __init__(self, invariants=(), index=None, decreases=None, unroll=False, ghost=None, modifies=None, header=None):
+        self.header = header      # e.g. 'for v in varz': preferred over the ordinal key when it matches a loop
+        # (name, expr) or (name, expr, uses): `uses` lists the other invariants of this loop that the
+        # inductive step of `name` needs; the rest are dropped from its hypotheses (always sound)
+        self.invariants = [(x[0], x[1]) for x in invariants]
+        self.uses = dict((x[0], set(x[2])) for x in invariants if len(x) > 2)
         self.index = index
         self.decreases = decreases
         self.unroll = unroll
@@ -99,12 +103,15 @@ class SpecCtx(object):
     def with_state(self, st):
         c = SpecCtx(st, self.old, self.result, self.bound, self.extra, self.entry)
         c.side = self.side
+        # names that do not exist in the older state (locals, ghosts) keep their current values
+        c.fallback = getattr(self, 'fallback', None) or self.st
         return c
 
     def bind(self, name, sv):
         c = SpecCtx(self.st, self.old, self.result, self.bound, self.extra, self.entry)
         c.bound[name] = sv
         c.side = self.side
+        c.fallback = getattr(self, 'fallback', None)
         return c
 
 
@@ -150,11 +157,31 @@ class SpecEval(object):
         self.engine = engine
 
     def formula(self, src, ctx):
+        marks = self._marks(ctx)
         v = self.ev(parse_expr(src), ctx)
-        return self.as_bool(v, ctx)
+        r = self.as_bool(v, ctx)
+        self._collect(ctx, marks)
+        return r
 
     def value(self, src, ctx):
-        return self.ev(parse_expr(src), ctx)
+        marks = self._marks(ctx)
+        v = self.ev(parse_expr(src), ctx)
+        self._collect(ctx, marks)
+        return v
+
+    def _marks(self, ctx):
+        out = []
+        for s in (ctx.old, ctx.entry):
+            if s is not ctx.st and all(s is not m[0] for m in out):
+                out.append((s, len(s.pc)))
+        return out
+
+    def _collect(self, ctx, marks):
+        # well-formedness facts of values read from an older state (e.g. "allocated at entry") are
+        # recorded on that state; make them available to the current obligation as side facts
+        for s, n in marks:
+            if len(s.pc) > n:
+                ctx.side.extend(s.pc[n:])
 
     def as_bool(self, v, ctx):
         if v.ty.kind == 'bool':
@@ -200,6 +227,12 @@ class SpecEval(object):
             return ctx.st.env[nm]
         if nm in ctx.st.ghost:
             return ctx.st.ghost[nm]
+        fb = getattr(ctx, 'fallback', None)
+        if fb is not None:
+            if nm in fb.env:
+                return fb.env[nm]
+            if nm in fb.ghost:
+                return fb.ghost[nm]
         if nm == 'True':
             return mk_bool(True)
         if nm == 'False':
@@ -226,6 +259,8 @@ class SpecEval(object):
                 return SV(STR, ops.slice_str(o.t, lo, hi))
             raise Unsupported('spec slice of ' + str(o.ty))
         i = self.ev(sl, ctx)
+        if o.ty.kind == 'seq':
+            return unpack(o.ty.args[0], z3.Select(o.t, ops.to_int(i).t))
         if o.ty.kind == 'list':
             idx = ops.to_int(i).t
             if isinstance(sl, ast.UnaryOp) and isinstance(sl.op, ast.USub):
@@ -368,8 +403,13 @@ class SpecEval(object):
 
     def quant(self, gen_node, ctx, universal):
         """all(P for j in range(a,b)) / any(...);  also `for x in <list>`"""
-        if not isinstance(gen_node, ast.GeneratorExp) or len(gen_node.generators) != 1:
+        if not isinstance(gen_node, ast.GeneratorExp):
             raise Unsupported('quantifier form')
+        if len(gen_node.generators) > 1:
+            # nested quantifier: all(P for i in A for j in B) == all(all(P for j in B) for i in A)
+            inner = ast.GeneratorExp(elt=gen_node.elt, generators=gen_node.generators[1:])
+            call = ast.Call(func=ast.Name(id='all' if universal else 'any', ctx=ast.Load()), args=[inner], keywords=[])
+            gen_node = ast.GeneratorExp(elt=call, generators=gen_node.generators[:1])
         g = gen_node.generators[0]
         if not isinstance(g.target, ast.Name):
             raise Unsupported('quantifier target')
@@ -444,7 +484,26 @@ class SpecEval(object):
         if f in REG['specfns']:
             args = [self.ev(a, ctx) for a in n.args]
             return REG['specfns'][f](ctx, *args)
+        if f == 'implies':
+            a0 = self.as_bool(self.ev(n.args[0], ctx), ctx)
+            if z3.is_false(z3.simplify(a0)):
+                return mk_bool(True)
+            return mk_bool(z3.Implies(a0, self.as_bool(self.ev(n.args[1], ctx), ctx)))
         args = [self.ev(a, ctx) for a in n.args]
+        if f == 'snap':
+            # immutable snapshot (sequence value) of a list in the current state
+            x = args[0]
+            if x.ty.kind != 'list':
+                raise Unsupported('snap of ' + str(x.ty))
+            return SV(Ty('seq', x.ty.args[0]), ctx.st.list_elems(x), None, ctx.st.list_len(x))
+        if f == 'seq_eq':
+            # list (now) has exactly the contents of the snapshot
+            x, q = args
+            j = z3.Int(fresh_name('j'))
+            n_ = ctx.st.list_len(x)
+            el = ctx.st.list_elems(x)
+            return mk_bool(z3.And(n_ == q.meta, forall([j], z3.Implies(z3.And(0 <= j, j < n_), z3.Select(el, j) == z3.Select(q.t, j)),
+                                                       patterns=[z3.Select(el, j)])))
         if f == 'len':
             x = args[0]
             if x.ty.kind == 'opt':
@@ -453,6 +512,8 @@ class SpecEval(object):
                 return SV(INT, z3.Length(x.t))
             if x.ty.kind == 'list':
                 return SV(INT, ctx.st.list_len(x))
+            if x.ty.kind == 'seq':
+                return SV(INT, x.meta)
             if x.ty.kind == 'tup':
                 return mk_int(len(x.ty.args))
             if x.ty.kind in ('dict', 'ref'):
